@@ -766,6 +766,11 @@ func writeBody(reader io.ReadCloser, writer io.Writer, closeWriter bool, errClea
 		keepOpen, err := step(writer)
 		writer.(http.Flusher).Flush()
 		if !keepOpen {
+			if err != nil && errCleanup != nil {
+				// The body is incomplete. Remove what was stored before Close can publish it: without a
+				// Content-Length the storage cannot tell a cut body from a whole one.
+				errCleanup()
+			}
 			var closeErr error
 			if closeWriter {
 				if v, ok := writer.(io.Closer); ok {
@@ -775,7 +780,7 @@ func writeBody(reader io.ReadCloser, writer io.Writer, closeWriter bool, errClea
 					}
 				}
 			}
-			if (err != nil || closeErr != nil) && errCleanup != nil {
+			if err == nil && closeErr != nil && errCleanup != nil {
 				errCleanup()
 			}
 			return err
